@@ -77,6 +77,12 @@ func modelProperty(id string, st *Stats, f Features, checkVars bool) func(t *rap
 	return func(t *rapid.T) {
 		depth := rapid.IntRange(1, 3).Draw(t, "depth")
 		globals, body := GenBodyProgram(t, f, depth)
+		if caps := captureNames(body); len(caps) > 0 && rapid.IntRange(0, 5).Draw(t, "shadow") == 0 {
+			// an (unused) definition with the name of a capture of the command: inside
+			// the command the name is the capture, a later mention a back-reference
+			globals = append(globals, Global{Name: rapid.SampledFrom(caps).Draw(t, "shadowed"), Body: []*Node{{K: KLit, S: "q"}}})
+			st.Count("capture_named_like_a_definition")
+		}
 		replace := rapid.IntRange(0, 4).Draw(t, "replace") == 0
 		text, source := GenText(t, globals, body, true, 14)
 		prog := &Program{Globals: globals, Commands: []Command{{Amount: []string{"all"}, Body: body}}}
